@@ -561,7 +561,15 @@ class ValidateTool(BaseTool):
             validator = Validator(schema=schema_def)
             validation_errors = validator.validate(doc, strict=strict_mode, section_schemas=section_schemas)
 
-            if validation_errors:
+            # Entries with severity="warning" (UNKNOWN_FIELDS::WARN -> W001) are reported but never block.
+            blocking_errors = [err for err in validation_errors if err.severity != "warning"]
+            result["warnings"].extend(
+                {"code": err.code, "message": err.message, "field": err.field_path}
+                for err in validation_errors
+                if err.severity == "warning"
+            )
+
+            if blocking_errors:
                 # Convert errors to dicts for reporting
                 error_dicts = [
                     {
@@ -569,7 +577,7 @@ class ValidateTool(BaseTool):
                         "message": err.message,
                         "field": err.field_path,
                     }
-                    for err in validation_errors
+                    for err in blocking_errors
                 ]
 
                 # #183: Profile-based handling of validation errors
